@@ -64,6 +64,8 @@ class Engine:
         self.timeout_ms = timeout_ms
         self.external = True
         self.deadline = None
+        self.inc = None
+        self.fp_used = False
         self.max_decisions = max_decisions
         self.max_paths = max_paths
         self.stats = {"queries": 0, "solver_s": 0.0, "paths": 0, "unknown": 0}
@@ -81,11 +83,31 @@ class Engine:
         self.cur_model = None
 
     # ---- solver helpers
+    def _inc_query(self, extra, want_model):
+        """BV-only path conditions: one incremental solver per path (push/pop) is far cheaper."""
+        inc = self.inc
+        inc.push()
+        try:
+            for e in extra:
+                inc.add(e)
+            r = _real_str(inc.check())
+            m = None
+            if r == "sat" and want_model:
+                zm = inc.model()
+                m = {n: smt._val(zm.eval(v, model_completion=True)) for n, v in self.inputs}
+            return r, m
+        finally:
+            inc.pop()
+
     def check(self, *extra):
-        """Non-incremental portfolio query (fresh solver => tactic pipeline; cvc5/z3 binaries on unknown)."""
+        """FP involved: non-incremental portfolio query (fresh solver => tactic pipeline; cvc5/z3 binaries on
+        unknown).  Otherwise incremental z3."""
         t = time.time()
         self._budget()
-        r, _ = smt.solve(self.pc + _real_list(extra), timeout_ms=self._tmo(), external=self.external)
+        if not self.fp_used and self.inc is not None:
+            r, _ = self._inc_query(extra, False)
+        else:
+            r, _ = smt.solve(self.pc + _real_list(extra), timeout_ms=self._tmo(), external=self.external)
         self.stats["queries"] += 1
         self.stats["solver_s"] += time.time() - t
         if r == "unknown":
@@ -96,8 +118,11 @@ class Engine:
         """-> (status, assignment dict name->python value over this path's inputs)"""
         t = time.time()
         self._budget()
-        r, m = smt.solve(self.pc + _real_list(extra), timeout_ms=self._tmo(), external=self.external,
-                         model_vars=[v for _, v in self.inputs])
+        if not self.fp_used and self.inc is not None:
+            r, m = self._inc_query(extra, True)
+        else:
+            r, m = smt.solve(self.pc + _real_list(extra), timeout_ms=self._tmo(), external=self.external,
+                             model_vars=[v for _, v in self.inputs])
         self.stats["queries"] += 1
         self.stats["solver_s"] += time.time() - t
         if r == "unknown":
@@ -124,6 +149,8 @@ class Engine:
         if z3.is_true(cond):
             return
         self.pc.append(cond)
+        if self.inc is not None:
+            self.inc.add(cond)
         if self.cur_model is not None and not z3.is_true(self.eval_under(self.cur_model, cond)):
             self.cur_model = None
 
@@ -186,6 +213,8 @@ class Engine:
         self.decisions.append(choice)
         c = cond if choice else z3.Not(cond)
         self.pc.append(c)
+        if self.inc is not None:
+            self.inc.add(c)
         return choice
 
     def concretize(self, bv, limit=16):
@@ -264,6 +293,9 @@ class Engine:
                     break
                 self.prefix = self.pending.pop()
                 self.cur_model = None
+                self.inc = z3.Solver()
+                self.inc.set("timeout", self.timeout_ms)
+                self.fp_used = False
                 self.decisions = []
                 self.pc = []
                 self.events = []
@@ -684,6 +716,9 @@ class SymFloat:
 
     def __init__(self, z):
         self.z = z
+        e = Engine.current
+        if e is not None:
+            e.fp_used = True
 
     def __bool__(self):
         return eng().decide(z3.Not(z3.fpIsZero(self.z)))
@@ -1212,3 +1247,80 @@ def sym_bool(name):  # noqa: F811
         e.inputs.append((name, v))
         return _real_bool(v)
     return _orig_sym_bool(name)
+
+
+# ------------------------------------------------------------------ exact-real proxy (for algebraic laws)
+class SymReal:
+    """Exact real arithmetic proxy (z3 Real): used only where a property is about the algebraic law,
+    with IEEE rounding explicitly outside the claim."""
+    __slots__ = ("z",)
+
+    def __init__(self, z):
+        self.z = z
+        e = Engine.current
+        if e is not None:
+            e.fp_used = True
+
+    @staticmethod
+    def _c(o):
+        if _real_isinstance(o, SymReal):
+            return o.z
+        if _real_isinstance(o, (_real_int, _real_float)) and not _real_isinstance(o, _real_bool):
+            return z3.RealVal(repr(o)) if _real_isinstance(o, _real_float) else z3.RealVal(o)
+        return None
+
+    def _b(self, o, f, rev=False):
+        c = self._c(o)
+        if c is None:
+            return NotImplemented
+        a, b = (c, self.z) if rev else (self.z, c)
+        return SymReal(f(a, b))
+
+    def __add__(self, o): return self._b(o, lambda a, b: a + b)
+    def __radd__(self, o): return self._b(o, lambda a, b: a + b, True)
+    def __sub__(self, o): return self._b(o, lambda a, b: a - b)
+    def __rsub__(self, o): return self._b(o, lambda a, b: a - b, True)
+    def __mul__(self, o): return self._b(o, lambda a, b: a * b)
+    def __rmul__(self, o): return self._b(o, lambda a, b: a * b, True)
+
+    def __truediv__(self, o):
+        c = self._c(o)
+        if c is None:
+            return NotImplemented
+        if eng().decide(c == 0):
+            raise ZeroDivisionError("float division by zero")
+        return SymReal(self.z / c)
+
+    def __rtruediv__(self, o):
+        c = self._c(o)
+        if c is None:
+            return NotImplemented
+        if eng().decide(self.z == 0):
+            raise ZeroDivisionError("float division by zero")
+        return SymReal(c / self.z)
+
+    def __neg__(self): return SymReal(-self.z)
+
+    def _cmp(self, o, f):
+        c = self._c(o)
+        if c is None:
+            return NotImplemented
+        return _mk_bool(f(self.z, c))
+
+    def __eq__(self, o): return self._cmp(o, lambda a, b: a == b)
+    def __ne__(self, o): return self._cmp(o, lambda a, b: a != b)
+    def __lt__(self, o): return self._cmp(o, lambda a, b: a < b)
+    def __le__(self, o): return self._cmp(o, lambda a, b: a <= b)
+    def __gt__(self, o): return self._cmp(o, lambda a, b: a > b)
+    def __ge__(self, o): return self._cmp(o, lambda a, b: a >= b)
+    __hash__ = None
+
+    def __repr__(self):
+        return f"<SymReal {_real_str(self.z)[:60]}>"
+
+
+def sym_real(name):
+    e = eng()
+    var = z3.Real(name)
+    e.inputs.append((name, var))
+    return SymReal(var)
